@@ -125,7 +125,7 @@ def run(ctx):
         if c[2]:
             st['sessions:policy=' + c[2][0]] += 1
         for x in rep:
-            if x != '-':
+            if x not in ('-', 'PANIC', 'WEDGED'):
                 b = bytes.fromhex(x)
                 if (c[0] == 'tcp' and b[7] & 0x80 and b[8] == 1) or (c[0] == 'rtu' and b[1] & 0x80 and b[2] == 1):
                     st['denied-replies(exception 01)'] += 1
